@@ -79,11 +79,25 @@ func RunServer(conn *Conn, cfg *security.SecurityConfig) Result {
 	return run(conn, cfg, false)
 }
 
+// RunServerPerCommand runs the real ServerHandshake with an authenticator whose
+// own (default) config is def and whose ServerConfigForCommand hook returns
+// perCmd for every command: the policy in force for the handshake is perCmd.
+func RunServerPerCommand(conn *Conn, def, perCmd *security.SecurityConfig) Result {
+	return runWith(conn, def, false, func(int) *security.SecurityConfig { return perCmd })
+}
+
 func run(conn *Conn, cfg *security.SecurityConfig, client bool) (r Result) {
+	return runWith(conn, cfg, client, nil)
+}
+
+func runWith(conn *Conn, cfg *security.SecurityConfig, client bool, hook func(int) *security.SecurityConfig) (r Result) {
 	ctx, cancel := context.WithTimeout(context.Background(), Timeout)
 	defer cancel()
 	st := stream.NewStream(conn)
 	a := security.NewAuthenticator(cfg, st)
+	if hook != nil {
+		a.ServerConfigForCommand = hook
+	}
 	defer func() {
 		if p := recover(); p != nil {
 			r.Err = &PanicError{p}
